@@ -37,6 +37,27 @@ CHECKS = {
  "C14": ("seqmc", "exhaustive fault enumeration (failure of the k-th source call for every k x 4 error kinds) inside explicit-state BFS",
          "For every scenario (input x capacity x chunking) and every k up to the number of source calls of a full read + 3: BFS over {next, set, exact(2), seek 0, seek 1} with the k-th source call failing once with each of 4 kinds; the failing API call must return Io of that kind. Interrupted before every read and before every <=2-subset of the first 6 reads must be invisible to the strict reference oracle.",
          "Exploration stops at the failing call; later behaviour is C06's.", "6 C14"),
+ "C09": ("seqmc", "explicit-state BFS with recording/refusing policies + exhaustive grid over the built-in policy arithmetic",
+         "Every grow_to call of every explored history is checked (argument = current capacity, adopted size = answer, installed instance asked, growth only when a record being parsed has extent >= capacity, BufferLimit iff refusal) over scenario families incl. every class string up to length 6 (thorough 8) read sequentially and 40/200-record inputs; built-in policies compared with an independently written formula on a dense grid.",
+         "'fits' is unconstrained at extent == capacity (EOF is inferred from a non-full buffer); need clause only for histories without exact-count batches.", "6 C09"),
+ "C10": ("seqmc", "bounded-exhaustive enumeration of sequences x widths x ALL chunkings x entry points, parse-back oracle",
+         "All sequence lengths 0..7 (thorough 10), all widths 1..n+2, all compositions into chunks with empty chunks inserted, 8 headers, all 13 FASTA writer entry points; parse-back via reference parser and real reader, wrap invariants, chunked = whole.",
+         "Writers never inspect sequence bytes, so positional letters stand for all sequences without LF/CR/'>'.", "6 C10"),
+ "C11": ("seqmc", "bounded-exhaustive enumeration of fields / well-formed files x capacities, parse-back and byte-equality oracle",
+         "FASTQ writer entry points over headers x lengths x 1-3 records; write_unchanged over every well-formed file of the record-shape family x LF/CRLF x final terminator x trailing blanks x every capacity, via next() and record sets.",
+         "Field contents free of CR/LF.", "6 C11"),
+ "C13": ("seqmc", "bounded-exhaustive enumeration of inputs x capacities, algebraic relations between all accessors",
+         "Every record of every enumerated input (ASCII and non-UTF-8 instantiation) under every capacity, obtained via next(), owned conversion and record sets; all view relations of the statement.",
+         "Same input box as C01/C02 (class strings one shorter in the quick tier).", "6 C13"),
+ "C18": ("allocmc", "exhaustive enumeration of (format, record shape, capacity, access path) configurations under a counting global allocator",
+         "Every capacity from record length + 1 to 5 record lengths for each uniform record shape, next() and reused record set, warm-up of a full batch-pattern period then 3 periods measured: zero allocations, capacities constant, policy not consulted.",
+         "Thread-local counting window; uniform record streams only.", "6 C18"),
+ "C19": ("seqmc", "bounded-exhaustive enumeration of inputs x capacities, serde_json + CBOR round trip of every batch and record",
+         "Every enumerated input (ASCII and arbitrary-byte instantiation) x capacity with one reused record set (stale offsets beyond len() counted), every batch and owned record round-tripped through JSON and CBOR and compared by iteration.",
+         "Two serde formats (self-describing text and binary).", "6 C19"),
+ "C20": ("seqmc", "exhaustive enumeration of ALL next/next_back step sequences per record, contracts checked after every step",
+         "Every FASTA record with 0..4 (thorough 6) lines over a line menu: all 2^(m+2) front/back step sequences with len()/size_hint() after each step, adaptor menu after every (front, back) prefix; RecordSetIter / RecordsIter / RecordsIntoIter fused-ness incl. after errors.",
+         "Iterator logic depends only on the number of lines.", "6 C20"),
 }
 
 NOT_YET = {}
@@ -71,6 +92,8 @@ def main():
         "engines": [
             {"name": "seqmc", "path": "/verif/mc/seq", "serves_properties": [p for p in sorted(CHECKS) if CHECKS[p][0] == "seqmc"],
              "kind_free_text": "bounded-exhaustive explorer of the sequential API on the real code: input/configuration sweeps, explicit-state BFS over call histories, fault enumeration"},
+            {"name": "allocmc", "path": "/verif/mc/seq/seqmc/src/allocmc.rs", "serves_properties": ["C18"],
+             "kind_free_text": "configuration-exhaustive allocation counting on the real readers (own binary: global allocator)"},
             {"name": "parmc", "path": "/verif/mc/par", "serves_properties": [p for p in sorted(CHECKS) if CHECKS[p][0] == "parmc"],
              "kind_free_text": "preemption-bounded exhaustive schedule exploration of the real parallel.rs on the shuttle runtime"},
         ],
